@@ -137,14 +137,14 @@ row(props=["C03", "C04"], func=CD + "(CodeFunction).GetAllCallString", params=["
 row(props=["C03", "C04", "C18"], func=CD + "(CodeCall).BuildFullMethodName", params=["c"], kind="returns",
     expr='ite(c.FunctionName == "", c.Package + "." + c.NodeName, c.Package + "." + c.NodeName + "." + c.FunctionName)', what="full name of a callee")
 row(props=["C03", "C04", "C18"], func=CD + "(CodeFunction).BuildFullMethodName", params=["m", "node"], kind="returns", expr='node.Package + "." + node.NodeName + "." + m.Name', what="full name of a method")
-row(props=["C04"], func="pkg/application/rcall.BuildMethodCallMap", params=["structs", "project"], kind="emits", target="mapstore:makemap", tag={}, total=1,
+row(props=["C04"], func="pkg/application/rcall.BuildMethodCallMap", params=["structs", "project"], kind="emits", target="mapstore:makemap1", tag={}, total=1,
     each={"as": "clz,method,c"},
     when='c.NodeName != "" && !(lookup(project, ite(c.FunctionName == "", c.Package + "." + c.NodeName, c.Package + "." + c.NodeName + "." + c.FunctionName)) < 1)',
     fields={"key": 'ite(c.FunctionName == "", c.Package + "." + c.NodeName, c.Package + "." + c.NodeName + "." + c.FunctionName)'},
     what="reverse map: one entry per call site whose callee is a declared method")
-row(props=["C04"], func="pkg/application/rcall.BuildProjectMethodMap", params=["clzs"], kind="emits", target="mapstore:makemap", tag={}, total=1,
+row(props=["C04"], func="pkg/application/rcall.BuildProjectMethodMap", params=["clzs"], kind="emits", target="mapstore:makemap1", tag={}, total=1,
     each={"as": "clz,method"}, when="true", fields={"key": 'clz.Package + "." + clz.NodeName + "." + method.Name', "value": "1"}, what="every declared method is in the project map")
-row(props=["C03"], func="pkg/application/call.BuildMethodMap", params=["structs"], kind="emits", target="mapstore:makemap", tag={}, total=1,
+row(props=["C03"], func="pkg/application/call.BuildMethodMap", params=["structs"], kind="emits", target="mapstore:makemap1", tag={}, total=1,
     each={"as": "clz,method"}, when="true", fields={"key": 'clz.Package + "." + clz.NodeName + "." + method.Name'}, what="caller → callees for every function of every class")
 row(props=["C03"], kind="final", **{"global": "pkg/application/call.maxLoopCount"}, value="6", what="expansion budget of the call graph")
 row(props=["C04"], kind="final", **{"global": "pkg/application/rcall.loopDepth"}, value="6", what="expansion budget of the reverse call graph")
@@ -214,6 +214,50 @@ row(props=["C02"], func=TT + "ParseTargetType", params=["t"], kind="returns",
     what="receiver type: field, then parameter, then local variable, else the text itself")
 row(props=["C17"], func="pkg/application/todo.(TodoApp).AnalysisPath$1", params=["path"], kind="returns",
     expr='exists(call("deref", free_filters), ext, hasSuffix(path, ext))', what="a file is scanned ⇔ its path ends with one of the selected extensions")
+
+
+# ------------------------------------------------------------------ second batch: C13 C20 C18 C16 C15 C05
+SRC = 'clz.Package + "." + clz.NodeName'
+row(props=["C13"], func=ARCH + "(ArchApp).Analysis", params=["a", "deps", "idmap"], kind="emits", target="mapstore:makemap1", tag={}, total=1, each={"as": "clz"},
+    when='clz.NodeName != "Main"', fields={"key": SRC, "value": SRC}, what="one node per project type, the entry class Main excluded")
+row(props=["C13"], func=ARCH + "(ArchApp).Analysis", params=["a", "deps", "idmap"], kind="emits", target="mapstore:makemap2", tag={}, total=1, each={"as": "clz,impl"},
+    when='clz.NodeName != "Main"', fields={"key": SRC + ' + "->" + impl', "value.From": SRC, "value.To": "impl"}, what="implements edge per implemented interface")
+for callee in ["addCallInField", "addExtend", "addCallInMethod"]:
+    row(props=["C13"], func=ARCH + "(ArchApp).Analysis", params=["a", "deps", "idmap"], kind="callguard", callee=ARCH + callee, each={"as": "clz"}, expr='clz.NodeName != "Main"',
+        what=callee + " runs for every type except Main")
+row(props=["C20"], func="pkg/infrastructure/ast/ast_go.(CocagoParser).Visitor$1", params=["node"], kind="callarg", callee="pkg/infrastructure/ast/ast_go.AddStructType", arg=0,
+    expr="free_currentStruct.NodeName", what="a struct type is registered under the name of its own type declaration")
+EV = "pkg/application/evaluate/evaluator."
+MPATH = 'ident.Package + "." + ident.NodeName + "." + method.Name'
+row(props=["C18"], func=EV + "(NullPointException).EvaluateList", params=["n", "model", "nodes", "nodeMap", "identifiers"], kind="emits", target="mapstore:makemap1", tag={}, total=2, index=0,
+    each={"as": "ident,method"}, when="method.IsReturnNull", fields={"key": MPATH, "value": MPATH}, what="nullable ⇔ returns null; collected through a map so each method is listed once")
+row(props=["C18"], func=EV + "(NullPointException).EvaluateList", params=["n", "model", "nodes", "nodeMap", "identifiers"], kind="emits", target="mapstore:makemap1", tag={}, index=1,
+    each={"as": "ident,method,annotation"}, when='!method.IsReturnNull && (annotation.Name == "Nullable" || annotation.Name == "CheckForNull")', fields={"key": MPATH, "value": MPATH},
+    what="nullable ⇔ annotated @Nullable / @CheckForNull")
+row(props=["C16"], func="pkg/domain/cloc.BuildLanguageMap", params=["languageMap", "keys", "filePath"], kind="emits", target="mapstore:p0", tag={}, total=1,
+    when="true", fields={"key": "trimSuffix(base(filePath), ext(filePath))"}, what="the row is named after the output file without its extension (= the subdirectory name)")
+row(props=["C16"], func="cmd.processTopFile", params=["dir"], kind="slicebound", field="Files", each={"as": "summary"},
+    expr='ite(len(summary.Files) >= global("cmd.clocConfig").TopSizes, global("cmd.clocConfig").TopSizes, len(summary.Files))',
+    what="every language lists its first min(top-size, number of files) files")
+M = 'call("regexp.(Regexp).FindStringSubmatch", global("pkg/application/git.complexMoveReg"), f)'
+NEWN = "%s[1] + %s[3] + %s[4]" % (M, M, M)
+OLDN = '%s[1] + %s[2] + ite(%s[2] == "", call("strings.TrimPrefix", %s[4], "/"), %s[4])' % (M, M, M, M, M)
+for i, e in enumerate([NEWN, OLDN, NEWN]):
+    row(props=["C15"], func="pkg/application/git.UpdateMessageForChange", params=["f"], kind="returns", result=i, expr="ite(len(%s) == 5, %s, f)" % (M, e),
+        what="rename notation dir/{old => new}/rest decoded into (current, old, new) names" + " [%d]" % i)
+FL = "pkg/infrastructure/ast/ast_java."
+IDCOL = "GetColumn(GetStart(Identifier(ctx)))"
+NAMEX = 'ite(Identifier(ctx) != nil, GetText(Identifier(ctx)), "")'
+for fld, ex in [("Position.StartLine", "GetLine(GetStart(ctx))"), ("Position.StartLinePosition", IDCOL), ("Position.StopLine", "GetLine(GetStop(ctx))"),
+                ("Position.StopLinePosition", IDCOL + " + len(" + NAMEX + ")"), ("Name", NAMEX), ("ReturnType", "GetText(TypeTypeOrVoid(ctx))")]:
+    row(props=["C05", "C02", "C01"], func=FL + "(JavaFullListener).EnterMethodDeclaration", params=["s", "ctx"], kind="callarg", callee=FL + "buildMethodParameters", arg=1, field=fld, expr=ex,
+        what="declaration entry: " + fld)
+for fld, ex in [("Position.StartLine", "GetLine(GetStart(ctx))"), ("Position.StartLinePosition", "GetColumn(GetStart(ctx))"), ("Position.StopLine", "GetLine(GetStop(ctx))"),
+                ("Position.StopLinePosition", "GetColumn(GetStart(ctx)) + len(callee)")]:
+    row(props=["C05", "C02"], func=FL + "BuildMethodCallLocation", params=["call", "ctx", "callee"], kind="emits", target="paramfield:0." + fld, tag={}, total=1, when="true",
+        fields={"value": ex}, what="call site position: " + fld)
+row(props=["C02"], func=FL + "(JavaFullListener).EnterMethodCall", params=["s", "ctx"], kind="callarg", callee=FL + "BuildMethodCallLocation", arg=2,
+    expr='GetText(call("assert:antlr.ParseTree", GetChild(ctx, 0)))', what="the callee text is the first child of the methodCall node")
 
 json.dump({"e5": rows}, open(os.path.join(os.path.dirname(os.path.dirname(os.path.abspath(__file__))), "spec", "e5.json"), "w"), indent=1, ensure_ascii=False)
 print(len(rows), "rows")
